@@ -60,3 +60,18 @@ Inductive muse :=
 | GetattrRaw
 | UseOther.         (* any other use of the raw string that is not whitelisted: unknown *)
 Record mcmp := { mc_two_d : bool; mc_func : string; mc_use : muse; mc_lits : list string }.
+
+(* ---- routing of every per-point array parameter (weights, alpha) of every registered method to the validator
+   that imposes its dtype ---- *)
+Inductive aroute :=
+| RSetup (name : string)      (* passed to self._setup_<name>: dtype imposed there (table `setups`) *)
+| RDirect (t : wdtype)        (* second argument of _check_optional_array(..., dtype=t) in the method itself *)
+| RUnknown.                   (* any other use of the parameter (or of an alias of it) *)
+Record aparam := { ap_two_d : bool; ap_method : string; ap_param : string; ap_routes : list aroute }.
+
+(* ---- arrays travelling inside method_kwargs of the optimizers: every read of method_kws['weights' | 'alpha' | <loop key>] ---- *)
+Inductive kwuse :=
+| KwValidated (t : wdtype)    (* second argument of _check_optional_array(...) : shape-normalised before any array operation *)
+| KwInternal                  (* read after the optimizer itself stored a computed value under that key *)
+| KwUnknown.
+Record kwload := { kl_two_d : bool; kl_func : string; kl_key : string; kl_use : kwuse }.
